@@ -30,6 +30,7 @@ import sys
 
 import pox.lib.recoco.recoco as R
 
+import errno
 from simkit import sim as S
 from simkit.rng import Rng, mix
 from simkit.check import load_known
@@ -81,7 +82,8 @@ EXPECT_PROBES = ["op_y0", "op_fsleep", "op_sleep", "op_sleepabs", "op_block",
                  "op_select", "op_recv", "op_send", "op_acq", "op_rel",
                  "op_again", "op_raise", "op_exit", "wake_ok", "wake_dup",
                  "select_timeout", "select_io", "recv_data", "recv_none",
-                 "send_full", "send_partial_progress", "lock_wait",
+                 "send_full", "send_partial_progress", "tx_spurious_eagain",
+                 "lock_wait",
                  "lock_handoff", "lock_nonblock_false", "again_val",
                  "again_exc", "again_none", "again_depth3", "timer_fire",
                  "timer_cancelled_before_fire", "timer_selfstop",
@@ -202,7 +204,8 @@ class _Gen(object):
     if op == "send":
       a = {"s": r.pick(socks), "n": r.pick([1, 3, 8, 20]),
            "to": r.wpick([(4, None), (1, 0.5), (1, 1.0)]),
-           "bs": r.pick([None, None, 4])}
+           "bs": r.pick([None, None, 4]),
+           "eg": r.pick([0, 0, 0, 1, 2])}
       self.io_event(op, a)
       return a
     if op == "acq":
@@ -447,6 +450,7 @@ class CSock(S.SimSocket):
     self.recv_log = []
     self.send_log = []
     self.inj = 0
+    self.eagain_left = 0
     self.since = {"r": None, "w": None, "x": None}
 
   def recv(self, n, flags=0):
@@ -459,6 +463,14 @@ class CSock(S.SimSocket):
     return out
 
   def send(self, data, flags=0):
+    if (self.eagain_left > 0 and not self.closed and not self.tx_dead
+        and self.tx_fatal is None):
+      # spurious readiness: select reported the socket writable, send()
+      # would block all the same (legal; another writer, Linux semantics)
+      self.eagain_left -= 1
+      self.sim.stats["tx_spurious_eagain"] += 1
+      self.send_log.append((self.sim.now, None, len(data)))
+      raise BlockingIOError(errno.EAGAIN, "Resource temporarily unavailable")
     try:
       k = S.SimSocket.send(self, data, flags)
     except OSError:
@@ -949,6 +961,7 @@ class Oracle(object):
         kw["timeout"] = a["to"]
       if a.get("bs"):
         kw["block_size"] = a["bs"]
+      sk.eagain_left = a.get("eg") or 0
       y = R.Send(sk, data, **kw)
       w.update(sock=sk, data=data, to=a.get("to"), bs=a.get("bs") or 8192,
                si=len(sk.send_log), a0=len(sk.accepted),
